@@ -6,7 +6,7 @@ import uuid
 from dataclasses import dataclass, field
 from types import NoneType
 
-from typing_extensions import Dict, Any, Self, Union, Callable, Type
+from typing_extensions import Dict, Any, Self, Union, Callable, Type, Optional
 
 from ..singleton import SingletonMeta
 from ..utils import get_full_class_name
@@ -31,6 +31,26 @@ JSON_DICT_TYPE = Dict[str, Any]  # Commonly referred JSON dict
 JSON_RETURN_TYPE = Union[
     JSON_DICT_TYPE, list[JSON_DICT_TYPE], *leaf_types
 ]  # Commonly referred JSON types
+
+
+def _resolve_enclosing_class(qualified_name: str) -> Optional[Type]:
+    """
+    :param qualified_name: A dotted name that is not the name of a module.
+    :return: The class of that name if it is a module name followed by the names of classes defined inside each other,
+     else None.
+    """
+    parts = qualified_name.split(".")
+    for number_of_module_parts in range(len(parts) - 1, 0, -1):
+        try:
+            found = importlib.import_module(".".join(parts[:number_of_module_parts]))
+        except Exception:
+            continue
+        for name in parts[number_of_module_parts:]:
+            found = vars(found).get(name)
+            if not isinstance(found, type):
+                return None
+        return found
+    return None
 
 
 class JSONSerializationError(Exception):
@@ -220,8 +240,11 @@ class SubclassJSONSerializer:
         try:
             module = importlib.import_module(module_name)
         except Exception as exc:
-            # a module that cannot be imported for whatever reason (not found, syntax error, an error while it runs)
-            raise UnknownModuleError(module_name) from exc
+            # the name of a class that is defined inside another class continues with the enclosing classes
+            module = _resolve_enclosing_class(module_name)
+            if module is None:
+                # a module that cannot be imported for whatever reason (not found, syntax error, an error while it runs)
+                raise UnknownModuleError(module_name) from exc
 
         try:
             target_cls = getattr(module, class_name)
